@@ -38,7 +38,7 @@ func TestVerifC22(t *testing.T) {
 	r.SetCounter("zones_loaded", int64(len(zones)))
 	r.SetRule("one case = (start, end, step from {0, every table step, 1M, table step±1, random < 2^31}, now around DST switches / a skipped local midnight on the 1st / random, one of 41 time zones incl. 30/45-minute offsets, week start 0..6, screen width 0..8000, mode, extend, 1..3 metrics with resolution and offset) → GetTimescale + Timescale.GetLODs + GetLODs; judged when a non-empty axis is returned (errors and empty axes are counted). Non-trivial = more than one LOD, or an extra leading point, or monthly, or > 2 points; distinct = distinct argument tuples.")
 	r.Assume("UTCOffset is what api.calcUTCOffset computes: (Thursday - weekStart) days + the zone's offset at the epoch; alignment of fixed steps is judged against that argument, not against today's local time")
-	n := r.N(150000, 6000000)
+	n := r.N(400000, 6000000)
 	workers := 8
 	if r.Thorough() {
 		workers = 16
